@@ -13,7 +13,9 @@ type propFn func(*Check)
 
 var propTable = map[string]propFn{
 	"C03": checkC03,
+	"C10": checkC10,
 	"C14": checkC14,
+	"C19": checkC19,
 }
 
 func runProps(t0 time.Time) int {
